@@ -184,8 +184,19 @@ Init ==
   /\ hist = <<>>
   /\ last = [op |-> Op("init", <<>>), res |-> Void, pre |-> <<>>]
 
+\* which case of the operation's contract a transition exercises (goes into the violation signature)
+ArgClass(o) ==
+  IF kind = "list" /\ o.op \in {"get", "set"}
+    THEN (LET i == o.a[1].v IN IF i < 0 THEN "neg" ELSE IF i < Len(st) THEN "in" ELSE "past")
+  ELSE IF kind = "list" /\ o.op \in {"pop", "last"} THEN (IF st = <<>> THEN "empty" ELSE "nonempty")
+  ELSE IF kind = "dict" /\ o.op \in {"update", "get", "remove", "contains_key"}
+    THEN (IF o.a[1] \in DOMAIN st THEN "present" ELSE "absent")
+  ELSE IF kind = "set" /\ o.op \in {"add", "contains", "remove"} THEN (IF o.a[1] \in st THEN "present" ELSE "absent")
+  ELSE "-"
+
 Emit(t, o, r, s2) ==
-  PrintT(<<"REPLAY", ToJson([ty |-> t, kind |-> kind, hist |-> hist, op |-> o, res |-> r, obs |-> Observe(kind, ty, s2)])>>)
+  PrintT(<<"REPLAY", ToJson([ty |-> t, kind |-> kind, hist |-> hist, pre |-> ToString(<<made, st>>), op |-> o,
+                             arg |-> ArgClass(o), res |-> r, obs |-> Observe(kind, ty, s2)])>>)
 
 Step(o, r, s2) ==
   /\ st' = s2
@@ -255,29 +266,29 @@ HStep(t, o, r) ==
 \* never build a set that mixes int and float records (TLC cannot order differently formed records)
 NumKinds == {"int", "float"}
 Nums(nk) == IF nk = "int" THEN Ints ELSE Halves
-HMin   == \E nk \in NumKinds : \E a, b \in Nums(nk) : HStep(nk, Op("min", <<a, b>>), IF NumLt(b, a) THEN b ELSE a)
-HMax   == \E nk \in NumKinds : \E a, b \in Nums(nk) : HStep(nk, Op("max", <<a, b>>), IF NumLt(a, b) THEN b ELSE a)
-HAbs   == \E nk \in NumKinds : \E a \in Nums(nk) : HStep(nk, Op("abs", <<a>>), IF Sgn(a) < 0 THEN Negate(a) ELSE a)
-HClamp == \E nk \in NumKinds : \E x, lo, hi \in Nums(nk) :
+HMin   == kind = "helper" /\ \E nk \in NumKinds : \E a, b \in Nums(nk) : HStep(nk, Op("min", <<a, b>>), IF NumLt(b, a) THEN b ELSE a)
+HMax   == kind = "helper" /\ \E nk \in NumKinds : \E a, b \in Nums(nk) : HStep(nk, Op("max", <<a, b>>), IF NumLt(a, b) THEN b ELSE a)
+HAbs   == kind = "helper" /\ \E nk \in NumKinds : \E a \in Nums(nk) : HStep(nk, Op("abs", <<a>>), IF Sgn(a) < 0 THEN Negate(a) ELSE a)
+HClamp == kind = "helper" /\ \E nk \in NumKinds : \E x, lo, hi \in Nums(nk) :
              /\ ~NumLt(hi, lo)
              /\ HStep(nk, Op("clamp", <<x, lo, hi>>), IF NumLt(x, lo) THEN lo ELSE IF NumLt(hi, x) THEN hi ELSE x)
-HSign  == \E nk \in NumKinds : \E a \in Nums(nk) :
+HSign  == kind = "helper" /\ \E nk \in NumKinds : \E a \in Nums(nk) :
              HStep(nk, Op("sign", <<a>>), IF a.k = "int" THEN IntV(Sgn(a)) ELSE FloatV(Sgn(a), 0))
 \* div / floor only where rounding down and rounding towards zero agree (the documentation does not say which)
-HDiv   == \E a, b \in Ints :
+HDiv   == kind = "helper" /\ \E a, b \in Ints :
              /\ b.v # 0
              /\ (Abs(a.v) % Abs(b.v) = 0) \/ (Sgn(a) * Sgn(b) >= 0)
              /\ HStep("int", Op("div", <<a, b>>), IntV(Sgn(a) * Sgn(b) * (Abs(a.v) \div Abs(b.v))))
-HFloor == \E nk \in NumKinds : \E a \in Nums(nk) :
+HFloor == kind = "helper" /\ \E nk \in NumKinds : \E a \in Nums(nk) :
              /\ a.k = "float" => (a.d = 0 \/ a.n > 0)
              /\ HStep(nk, Op("floor", <<a>>), IF a.k = "int" THEN a ELSE IntV(a.n \div Pow2(a.d)))
 
 MaybeTypes == {"int", "str", "pair"}
 Maybes(t) == {None, Just(ValSeq(t)[1]), Just(ValSeq(t)[2])}
-HOrDefault == \E t \in MaybeTypes : \E m \in Maybes(t), d \in {ValSeq(t)[1], ValSeq(t)[3]} :
+HOrDefault == kind = "helper" /\ \E t \in MaybeTypes : \E m \in Maybes(t), d \in {ValSeq(t)[1], ValSeq(t)[3]} :
                  HStep(t, Op("orDefault", <<m, d>>), IF m.tag = "Just" THEN m.val ELSE d)
-HIsJust == \E t \in MaybeTypes : \E m \in Maybes(t) : HStep(t, Op("isJust", <<m>>), BoolV(m.tag = "Just"))
-HIsNone == \E t \in MaybeTypes : \E m \in Maybes(t) : HStep(t, Op("isNone", <<m>>), BoolV(m.tag = "None"))
+HIsJust == kind = "helper" /\ \E t \in MaybeTypes : \E m \in Maybes(t) : HStep(t, Op("isJust", <<m>>), BoolV(m.tag = "Just"))
+HIsNone == kind = "helper" /\ \E t \in MaybeTypes : \E m \in Maybes(t) : HStep(t, Op("isNone", <<m>>), BoolV(m.tag = "None"))
 
 Next == \/ ListLit \/ Push \/ Prepend \/ Pop \/ Get \/ Set \/ LenL \/ Map \/ Filter \/ Fold \/ Find \/ Contains \/ Last
         \/ DictNew \/ DictFromList \/ DictUpdate \/ DictGet \/ DictRemove \/ DictLen \/ DictContainsKey
